@@ -6,6 +6,7 @@ CONSTANTS
   ASIS = TRUE
   ALPHA = "reduced"
   MAXLEN = 10
+  GUARD = TRUE
 INVARIANT Inv
 VIEW MCView
 CHECK_DEADLOCK FALSE
